@@ -537,6 +537,48 @@ def fill_check(ctx, monitor, n_quick, n_thorough, project, deps, kinds="FSD"):
 FILL_DEPS = {"Base.v", "BaseProofs.v", "F64.v", "Percent.v", "Filler.v", "Decor.v", "FillerProofs.v", "PercentProofs.v", "DecorProofs.v"}
 
 
+def dec_check(ctx, kind):
+    """family dec: self-checking cases over the built-in decorators the fmt family does not reach (counters group, elapsed,
+    average speed / ETA, spinner, name, conditional constructors, on-complete-or-on-abort); kind = "V" (printed value, C20)
+    or "W" (reported width, C07)"""
+    if not ctx.harness:
+        return
+    if ctx.replay:
+        rp = json.load(open(ctx.replay))
+        if rp.get("family") != "dec":
+            return
+        runs = [ctx.run_family("dec", rp.get("n", 1500), seed=rp.get("run_seed", ctx.seed), model=False)]
+    elif ctx.tier == "quick":
+        runs = [ctx.run_family("dec", 1500, model=False)]
+    else:
+        runs = [ctx.run_family("dec", 20000, seed=ctx.seed * 1000 + i, model=False) for i in range(4)]
+    seen = set()
+    for run in runs:
+        if run["rc"] != 0:
+            ctx.add_violation("decorator run failed (panic?): " + run["log"][-1500:], "dec-run-failed",
+                              {"family": "dec", "run_seed": run["seed"], "n": run["n"]})
+            continue
+        cases = {}
+        for l in read_lines(os.path.join(run["dir"], "cases.txt")):
+            f = l.split()
+            cases[int(f[1])] = l
+        for l in read_lines(os.path.join(run["dir"], "impl.txt")):
+            f = l.split(" ", 3)
+            ctx.cov["evaluations"] += 1
+            if f[2] == "OK":
+                ctx.cov["traces_validated_against_impl"] += 1
+                ctx.distinct(("dec", cases.get(int(f[0]), "")))
+            elif f[2] == "BAD":
+                for part in f[3].split(" ;; "):
+                    if part.startswith(kind + " "):
+                        sig = "dec-" + f[1] + "-" + kind
+                        if sig not in seen:
+                            seen.add(sig)
+                            ctx.add_violation("built-in decorator: " + part[2:], sig,
+                                              {"family": "dec", "run_seed": run["seed"], "n": run["n"], "k": int(f[0]),
+                                               "case": cases.get(int(f[0]))})
+
+
 @check
 def check_C07(ctx):
     ctx.cov["rule"] = ("F = direct BarFiller.Fill calls (styles from ASCII / wide / multi-rune / empty / zero-width components, 1-3 tip "
@@ -547,6 +589,7 @@ def check_C07(ctx):
     ctx.assumptions = ["display width is measured with go-runewidth on the ANSI-stripped row (RUNEWIDTH_EASTASIAN=0)",
                        "user decorators are assumed to report their true width (built-in ones are proved to)"]
     fill_check(ctx, c07_monitor, 2500, 200000, c07_project, FILL_DEPS | {"Props/C07.v"})
+    dec_check(ctx, "W")
     # rows as a container emits them (bars clipped by the height, popped, promoted, re-prioritised in between)
     if ctx.harness and not (ctx.replay and json.load(open(ctx.replay)).get("family") != "frames"):
         sigs = set()
@@ -1212,10 +1255,14 @@ def check_C20(ctx):
                        "percentage decorator for 0<=current<=total; time styles for 0<=d<60h through the moving-average ETA; speed "
                        "producer; sample sequences (n<=0, zero durations) through the estimators' zero-progress carry; the model "
                        "predicts the exact string for the verbs rendered as 'f' and the exact float handed to the moving average")
-    ctx.assumptions = ["verbs e,E,g,G,b,x,X are only checked to carry the right unit and to read back; elapsed / average-speed "
-                       "decorators read the wall clock and are checked for freezing only"]
+    ctx.assumptions = ["verbs e,E,g,G,b,x,X are only checked to carry the right unit and to read back",
+                       "elapsed / average-speed / average-ETA decorators read the wall clock: the dec family brackets the reading and "
+                       "skips a case whose expectation differs between the two ends of the bracket"]
+    ctx.cov["rule"] += ("; dec family: counters group, elapsed, average speed / ETA, spinner, name, conditional constructors, "
+                        "on-complete-or-on-abort, self-checked against the model-compared size / time / speed formatters")
     diff_check(ctx, "fmt", 3000, 200000, {"Base.v", "F64.v", "Percent.v", "SizeFmt.v", "SizeFmtProofs.v", "Props/C20.v"},
                monitor=c20_monitor, classify=lambda case: case[0].split()[0])
+    dec_check(ctx, "V")
     # every sample reaches the moving-average decorator however deeply it is wrapped: the bar family's
     # recorder sits behind 0-3 wrappers; only the samples are compared here
     def samples_only(lines):
